@@ -103,6 +103,37 @@ def scan():
     return found
 
 
+IMPL_ITER = re.compile(r"^impl(?:<[^>]*>)?\s+(?:std::iter::)?IntoIterator\s+for\s+(&\s*(?:'\w+\s+)?)?([A-Za-z_][A-Za-z0-9_]*)\s*\{?")
+
+
+def scan_into_iter():
+    out = []
+    src = os.path.join(REPO, "src")
+    for root, _, files in sorted(os.walk(src)):
+        for f in sorted(files):
+            if not f.endswith(".rs"):
+                continue
+            full = os.path.join(root, f)
+            rel = os.path.relpath(full, src)
+            if rel.startswith("tests_cfg"):
+                continue
+            lines = open(full, encoding="utf-8").read().split("\n")
+            for i, l in enumerate(lines):
+                if l.startswith("#[cfg(test)]"):
+                    break
+                m = IMPL_ITER.match(l)
+                if not m or m.group(1):
+                    continue
+                cfgs = []
+                j = i - 1
+                while j >= 0 and lines[j].strip().startswith("#["):
+                    if lines[j].strip().startswith("#[cfg("):
+                        cfgs.append(map_cfg(lines[j]))
+                    j -= 1
+                out.append((m.group(2), module_prefix(rel), cfgs, rel))
+    return out
+
+
 def obligations(found):
     obs = []  # (fn_name, type_expr, cfgs, origin)
     unlisted = []
@@ -132,6 +163,10 @@ def obligations(found):
         obs.append((fn, t, cfgs, rel))
     for k, t in enumerate(EXTRA):
         obs.append(("ob_extra_%d" % k, t, [], "extra"))
+    # iterator types that public types hand out (`impl IntoIterator for X`): they are part of the
+    # value API although no `pub struct` line declares them
+    for k, (name, prefix, cfgs, rel) in enumerate(scan_into_iter()):
+        obs.append(("ob_intoiter_%s_%d" % (name, k), "<%s%s as IntoIterator>::IntoIter" % (prefix, name), cfgs, rel))
     return obs, unlisted
 
 
